@@ -335,7 +335,9 @@ _CUR_BATCH = None
 
 
 def _impl_idx(i):
-    return _CUR_BATCH.impl(_CUR_BATCH.cases[i])
+    c = _CUR_BATCH.cases[i]
+    r = _CUR_BATCH.impl(c)
+    return r, c          # the case is sent back: some implementations record observations in it
 
 
 def run_impl(b: "Batch") -> list:
@@ -350,7 +352,10 @@ def run_impl(b: "Batch") -> list:
     _CUR_BATCH = b
     try:
         with mp.get_context("fork").Pool(min(NPROC, 16)) as pool:
-            return pool.map(_impl_idx, range(n), chunksize=max(1, n // (NPROC * 8)))
+            out = pool.map(_impl_idx, range(n), chunksize=max(1, n // (NPROC * 8)))
+        for i, (_, c) in enumerate(out):
+            b.cases[i] = c
+        return [r for r, _ in out]
     finally:
         _CUR_BATCH = None
 
